@@ -199,25 +199,30 @@ fn require_stale<K: Kernel<D, Scalar = f64>, const D: usize>(rep: &Report, dt: &
     let tri = dt.as_triangulation();
     let q = Point::new([0.123; D]);
     let mut served: Vec<&str> = Vec::new();
-    if hull.is_valid_for_triangulation(tri) {
-        served.push("is_valid_for_triangulation");
-    }
-    if !matches!(hull.validate(tri), Err(ConvexHullValidationError::StaleHull { .. })) {
-        served.push("validate");
-    }
-    if !matches!(hull.is_point_outside(&q, tri), Err(ref e) if is_stale_c(e)) {
-        served.push("is_point_outside");
-    }
-    if !matches!(hull.find_visible_facets(&q, tri), Err(ref e) if is_stale_c(e)) {
-        served.push("find_visible_facets");
-    }
-    if !matches!(hull.find_nearest_visible_facet(&q, tri), Err(ref e) if is_stale_c(e)) {
-        served.push("find_nearest_visible_facet");
-    }
-    if let Some(h) = hull.facets().next() {
-        if !matches!(hull.is_facet_visible_from_point(h, &q, tri), Err(ref e) if is_stale_c(e)) {
-            served.push("is_facet_visible_from_point");
+    // every query under catch_unwind: a panic (e.g. a debug assertion) is not a staleness report either
+    let mut panicked: Vec<&str> = Vec::new();
+    let h0 = hull.facets().next();
+    let answers: Vec<(&str, Result<bool, String>)> = vec![
+        ("is_valid_for_triangulation", vcore::dtx::guarded(|| !hull.is_valid_for_triangulation(tri))),
+        ("validate", vcore::dtx::guarded(|| matches!(hull.validate(tri), Err(ConvexHullValidationError::StaleHull { .. })))),
+        ("is_point_outside", vcore::dtx::guarded(|| matches!(hull.is_point_outside(&q, tri), Err(ref e) if is_stale_c(e)))),
+        ("find_visible_facets", vcore::dtx::guarded(|| matches!(hull.find_visible_facets(&q, tri), Err(ref e) if is_stale_c(e)))),
+        ("find_nearest_visible_facet", vcore::dtx::guarded(|| matches!(hull.find_nearest_visible_facet(&q, tri), Err(ref e) if is_stale_c(e)))),
+        ("is_facet_visible_from_point", vcore::dtx::guarded(|| h0.is_none_or(|h| matches!(hull.is_facet_visible_from_point(h, &q, tri), Err(ref e) if is_stale_c(e))))),
+    ];
+    for (name, a) in answers {
+        match a {
+            Ok(true) => {}
+            Ok(false) => served.push(name),
+            Err(_) => panicked.push(name),
         }
+    }
+    if !panicked.is_empty() {
+        rep.violation(Finding {
+            signature: json!({"check": "stale_hull_query_panicked", "queries": panicked, "D": D}),
+            description: format!("after {op:?} -> {} ({why}) these hull queries panicked instead of reporting staleness: {panicked:?}", out.class()),
+            replay: replay("staleness"),
+        });
     }
     if !served.is_empty() {
         rep.violation(Finding {
